@@ -137,7 +137,6 @@ extern "C" int harness_main() {
         placed[ready[c]] = true;
         if (ready[c] != pos) differs = true;
     }
-    if (!differs) { verif_reach("identity_permutation"); }
 
     std::int64_t s0 = verif_range("start", 0, 1000);
     std::int64_t win = verif_range("window", 1, WMAX);
@@ -198,7 +197,7 @@ extern "C" int harness_main() {
     }
     verif_assert(ok_cycles, "C06.same_cycles_and_evaluation_counts_in_any_wiring_order");
 
-    if (differs) verif_reach("permuted_order");
+    if (differs) verif_reach("permuted_order"); else verif_reach("identity_permutation");
     if (total >= 2) verif_reach("two_output_ticks");
     if (g_prog == 3 && g_r[0].n[1] >= 1) verif_reach("feedback_delivered");
     if (g_prog == 1) {
